@@ -23,6 +23,7 @@
 #include <QFile>
 #include <QFileInfo>
 #include <QFileInfoList>
+#include <QPointer>
 #include <QUrl>
 
 #include <qhttpengine/filesystemhandler.h>
@@ -91,8 +92,13 @@ void FilesystemHandlerPrivate::processFile(Socket *socket, const QString &absolu
     QIODeviceCopier *copier = new QIODeviceCopier(file, socket);
     connect(copier, &QIODeviceCopier::finished, copier, &QIODeviceCopier::deleteLater);
     connect(copier, &QIODeviceCopier::finished, file, &QFile::deleteLater);
-    connect(copier, &QIODeviceCopier::finished, [socket]() {
-        socket->close();
+    // (the copier also finishes when the socket is being destroyed, at which
+    // point it must not be used any more)
+    QPointer<Socket> socketGuard(socket);
+    connect(copier, &QIODeviceCopier::finished, [socketGuard]() {
+        if (socketGuard) {
+            socketGuard->close();
+        }
     });
 
     // Stop the copier if the socket is disconnected
